@@ -10,7 +10,8 @@
 #include <stdint.h>
 #include <stddef.h>
 
-#define VS_MAXCP     6000   /* hard cap on recorded choice points / execution */
+#define VS_MAXCP     60000  /* hard cap on recorded choice points / execution */
+#define VS_DEFCP     6000   /* default horizon cap; a run that reaches it is re-run with VS_MAXCP before it counts as a livelock */
 #define VS_MAXDEV    12
 #define VS_MAXT      40
 
